@@ -97,6 +97,11 @@ def main(argv):
     if st:
         print('CHECKER-ERROR engine self-test: %s' % '; '.join(st))
         return 3
+    from . import validate
+    nv, vbad = validate.run(seed, 12 if tier == 'quick' else 120)
+    if vbad:
+        print('CHECKER-ERROR NumPy contract library disagrees with the installed NumPy: %s' % '; '.join('%s :: %s' % (a, b[:160]) for a, b in vbad[:3]))
+        return 3
     evidence = {'property_id': prop, 'tier': tier, 'seed': seed, 'level': 'proof', 'coverage': {}, 'assumptions': [],
                 'wall_s': 0.0, 'violations': 0}
     if not sel:
@@ -273,7 +278,7 @@ def main(argv):
         'obligations': obligations, 'discharged': discharged,
         'checker_cmd': './check %s --tier %s' % (prop, tier),
         'trusted_base': ['CPython %s executing control flow and heap operations of the real function bodies' % sys.version.split()[0],
-                         'assumed contracts of NumPy %s / builtins (fxpv.npc, fxpv.pyc), cross-checked concolically on every path' % __import__('numpy').__version__,
+                         'assumed contracts of NumPy %s / builtins (fxpv.npc, fxpv.pyc), cross-checked concolically on every path and differentially validated before each run (fxpv.validate: %d comparisons against the installed NumPy on constant-symbolic data, 0 disagreements)' % (__import__('numpy').__version__, nv),
                          'float64 treated as exact rational arithmetic under proved side conditions (FP-exact)',
                          'z3 %s, cvc5 (fallback)' % __import__('z3').get_version_string(), 'the fxpv explorer'],
         'functions_under_contract': sorted(per_contract), 'per_contract': per_contract, 'configs': len(tasks), 'paths': paths,
